@@ -8,14 +8,15 @@ namespace Attrs.C13
 
 theorem realise_serFlat (m : SerMode) (c : Nat) (f : FI) (v : PVal) :
     realise (serFlat m c f v) = .ok (serFlat m c f v) := by
-  cases m <;> cases v <;> simp [serFlat, realise, realise_embed]
+  cases m <;> cases v <;> simp [serFlat, realise, realise_embed] <;> split <;> simp [realise]
 
 theorem shapeDFlat_eq_flatD (o : Opts) (c : Nat) : ∀ fs : List (FI × PVal), shapeDFlat o c fs = flatD o c fs
   | [] => rfl
   | (f, v) :: r => by
     have ih := shapeDFlat_eq_flatD o c r
     by_cases hp : passes o.filter f v = true
-    · cases hs : o.ser <;> cases v <;> simp [shapeDFlat, flatD, hp, hs, ih, serFlat, serAt, isAtom, embed]
+    · cases hs : o.ser <;> cases v <;>
+        simp [shapeDFlat, flatD, hp, hs, ih, serFlat, serAt, serAppliesV, serApplies, embed]
     · simp [shapeDFlat, flatD, hp, ih]
 
 theorem realiseR_flatD (o : Opts) (c : Nat) : ∀ fs : List (FI × PVal),
